@@ -7,8 +7,8 @@ CONSTANTS
   PhysPage <- MCPhys
   Bufs <- MCBufs1
   Ctxs = {1}
-  Ranges <- MCRangesQ
-  KWrites <- MCKWritesQ
+  Ranges <- MCRangesT
+  KWrites <- MCKWritesT
   MaxCmds = 3
   Contract = TRUE
   Deviations = {"flush_rsp_no_complete"}
